@@ -142,6 +142,8 @@ static var alloc_by(var type, int method) {
     self = header_init(head, type, AllocHeap);
   }
 
+  CELLO_VERIF_POINT(CELLO_VP_ALLOC, self);
+
   switch (method) {
     case ALLOC_STANDARD:
 #ifndef CELLO_NGC
